@@ -724,6 +724,24 @@ B[-1]["edits"].append(("bits/p2p.py", "from threading import Event\n", "from thr
 B[-1]["edits"].append(("bits/p2p.py", "log = logging.getLogger(__name__)\nlog.setLevel(logging.DEBUG)\n", "log = logging.getLogger(__name__)\nlog.setLevel(logging.DEBUG)\n_INBOX_INIT = Lock()\n"))
 
 
+benign(
+    "c19-lock-and-index-files",
+    "C19",
+    "bits/p2p.py",
+    """    dat_file = open(filepath, "ab")
+    for blk in blocks:
+""",
+    """    with open(os.path.join(datadir, ".lock"), "w") as _lock:
+        _lock.write("locked\\n")
+    with open(os.path.join(datadir, "blocks.idx"), "ab") as _idx:
+        _idx.write(len(blocks).to_bytes(4, "little"))
+    dat_file = open(filepath, "ab")
+    for blk in blocks:
+""",
+    runs=1500,
+)
+
+
 def judge_benign(m, workers):
     root = _scratch_root()
     try:
